@@ -148,7 +148,68 @@ class ShippedMonitor(C05Monitor):
             self.last_me = tree.metaepoch_count
             if self.x.desc["gsc"]["kind"] in BOUNDARY_KINDS:
                 self.x.w.log.hooks.append(self.on_call)
+        if kind in ("consult", "boundary"):
+            self.on_consult_reference(tree)
         super().on(kind, tree, info)
+
+    def reference_verdict(self, tree):
+        """The shipped condition's verdict according to its documentation, computed from the recorder
+        and public attributes only (None = not modelled)."""
+        w = self.x.w
+        g = self.x.desc["gsc"]
+        k = g["kind"]
+        if any(c is not None for c in w.cutoffs):
+            return None
+        if k == "metaepoch":
+            return tree.metaepoch_count >= g["n"]
+        if k == "evals":
+            return len(w.log) >= g["n"]
+        if k == "fevals":
+            wts = g.get("weights", "equal")
+            n = len(w.engines)
+            if wts in ("equal", "none"):
+                wts = [1] * n
+            elif wts == "root":
+                wts = [1] + [0] * (n - 1)
+            return sum(wts[l] * w.log.per_level[l] for l in range(n)) >= g["n"]
+        if k == "precision":
+            opt = w.desc["precision"].get("opt", 0.0)
+            opt = -opt if w.maximize else opt
+            return any(abs(v - opt) <= w.desc["precision"]["eps"] for lv, v in zip(w.log.level, w.log.v) if lv == 0)
+        if k == "rootstopped":
+            return not tree.root.is_active
+        if k == "allstopped":
+            return not any(d.is_active for _, d in tree.all_demes)
+        if k == "dontrun":
+            return True
+        if k == "noactive":
+            n = g.get("n", 1)
+            for lvl in range(1, len(tree.levels)):
+                if not tree.levels[lvl]:
+                    return False
+                for d in tree.levels[lvl]:
+                    if d.is_active or tree.metaepoch_count <= d.started_at + d.metaepoch_count + n:
+                        return False
+            return True
+        return None
+
+    def on_consult_reference(self, tree):
+        ref = self.reference_verdict(tree)
+        if ref is None:
+            return
+        try:
+            real = bool(self.x.w.real_gsc(tree))
+        except Exception:
+            return
+        self.x.extra_count("C05 shipped-condition verdicts compared")
+        if ref:
+            self.x.flag("shipped condition true at a consult")
+        if real != ref:
+            self.x.violate(
+                f"C05/shipped-condition-verdict:{self.x.desc['gsc']['kind']}",
+                f"{self.x.w.real_gsc} answers {real} but by its documented meaning it {'holds' if ref else 'does not hold'} "
+                f"(metaepoch {tree.metaepoch_count}, calls per level {dict(self.x.w.log.per_level)})",
+            )
 
     def on_call(self, level, xx, v):
         w = self.x.w
@@ -218,7 +279,8 @@ def _worlds(tier, seed):
 def _shipped(tier, seed):
     conds = [{"kind": "metaepoch", "n": n} for n in range(0, 5)]
     conds += [{"kind": "evals", "n": n} for n in (1, 7, 20, 45)]
-    conds += [{"kind": "fevals", "n": 25, "weights": w} for w in ("equal", "root", [1, 2, 3])]
+    conds += [{"kind": "fevals", "n": 25, "weights": w} for w in ("equal", "root", [1, 2, 3], [1.0, 0.5, 0.25])]
+    conds += [{"kind": "fevals", "n": n, "weights": [0.5, 1.5, 0.25]} for n in (9, 14, 22, 31, 39, 47)]
     conds += [{"kind": "precision"}, {"kind": "rootstopped"}, {"kind": "allstopped"}, {"kind": "noactive", "n": 1}, {"kind": "dontrun"}]
     shapes = [("SEA", "CMAf"), ("DE", "SHADE"), ("LHS", "LOC"), ("MWEA", "DEd"), ("SOB", "SEAX", "CMAw"), ("GA",), ("SHADE", "CMAs")]
     if tier == "thorough":
@@ -236,6 +298,18 @@ def _shipped(tier, seed):
                 if g["kind"] == "noactive":
                     d["lsc"] = [None] + [{"kind": "metaepoch", "m": 1}] * (len(eng) - 1)
                 out.append(d)
+    # 3-level trees in which the middle level has stopped for a while but leaves are still running
+    for eng in (("SEA", "DE", "CMAf"), ("DE", "SEA", "SHADE"), ("GA", "SOB", "DE")):
+        for n in (0, 1, 2):
+            for drive in ("run", "steps"):
+                out.append(dict(engines=list(eng), gens=1, sprout={"kind": "simple", "L": 2}, gsc={"kind": "noactive", "n": n}, seed=1 + seed % 1000, Mh=10, drive=drive,
+                                lsc=[{"kind": "metaepoch", "m": 2}, {"kind": "metaepoch", "m": 2}, {"kind": "metaepoch", "m": 4}]))
+    # fractional (exactly representable) weights with odd population sizes: weighted counts are not integers
+    for eng in (("LHS", "SOB"), ("SEA", "DE"), ("STUB", "LHS", "DE"), ("DE", "STUBEA")):
+        for n in range(6, 40, 3):
+            for wts in ([0.5, 0.75, 0.25], [0.75, 0.5, 1.25]):
+                out.append(dict(engines=list(eng), gens=1, pop=5, sprout={"kind": "simple", "L": 2}, gsc={"kind": "fevals", "n": n, "weights": wts[: len(eng)]},
+                                seed=1 + seed % 1000, Mh=5, drive="run"))
     return out
 
 
@@ -332,6 +406,8 @@ def finish(res, tier):
         raise Vacuous("fewer than 100 executions with the first-true point at a boundary")
     if res.flags["dontrun world"] < 1 or res.flags["root ran exactly n"] < 5:
         raise Vacuous("explicit MetaepochLimit / DontRun clauses not exercised")
+    if res.extra["C05 shipped-condition verdicts compared"] < 5000 or res.flags["shipped condition true at a consult"] < 300:
+        raise Vacuous("reference verdicts of the shipped conditions hardly compared")
     if res.flags["start of a metaepoch observed"] < 500:
         raise Vacuous("boundary clause hardly exercised")
     if res.configs_completed < res.configs:
